@@ -1,0 +1,349 @@
+//! Verification seams, compiled only with the `verif` cargo feature.
+//!
+//! Every function in here is a no-op unless the external model-checking harness has switched the
+//! corresponding observer on. Nothing in this module changes the behaviour of the database by
+//! itself: the harness records the mutating file operations (`io`), injects I/O failures at a
+//! chosen operation (`io`), decides which thread passes a synchronisation point next (`sched`),
+//! and overrides the one constant that makes rollback-log segment roll-over unreachable with
+//! small values (`knobs`).
+
+#![allow(missing_docs)]
+
+pub mod io {
+    use crossbeam_channel::Sender;
+    use std::cell::Cell;
+    use std::collections::HashMap;
+    use std::os::fd::RawFd;
+    use std::sync::atomic::{AtomicBool, Ordering};
+    use std::sync::Mutex;
+
+    use crate::io::{CompleteIo, IoCommand, IoKind};
+
+    /// What a mutating file operation does.
+    #[derive(Debug, Clone, PartialEq, Eq)]
+    pub enum Kind {
+        /// `pwrite` of `data` at `off` (page writes through the I/O pool and direct writes).
+        Write { off: u64, data: Vec<u8> },
+        /// `write` on a file opened in append mode.
+        Append { data: Vec<u8> },
+        SetLen(u64),
+        Fsync,
+        FsyncData,
+        Create,
+        Unlink,
+        DirSync,
+        /// Not an I/O operation: a phase marker emitted by the code (`mark`).
+        Mark(String),
+    }
+
+    impl Kind {
+        /// A short tag naming the class of the operation; `(file, tag, ordinal)` identifies an
+        /// operation across re-executions for fault injection.
+        pub fn tag(&self) -> &'static str {
+            match self {
+                Kind::Write { .. } => "write",
+                Kind::Append { .. } => "append",
+                Kind::SetLen(_) => "setlen",
+                Kind::Fsync => "fsync",
+                Kind::FsyncData => "fsyncdata",
+                Kind::Create => "create",
+                Kind::Unlink => "unlink",
+                Kind::DirSync => "dirsync",
+                Kind::Mark(_) => "mark",
+            }
+        }
+    }
+
+    #[derive(Debug, Clone)]
+    pub struct Event {
+        /// Global stamp taken when the operation was submitted / about to be issued.
+        pub seq: u64,
+        /// Global stamp taken when the operation was observed complete. `None`: never completed
+        /// (a fault was injected at submission, or the syscall itself failed).
+        pub done: Option<u64>,
+        /// File name inside the database directory (`DIR` for the directory itself).
+        pub file: String,
+        pub kind: Kind,
+        pub thread: String,
+        /// Whether the harness made this operation fail.
+        pub injected: bool,
+    }
+
+    /// Where an injected failure of a page write submitted to the I/O pool is reported.
+    #[derive(Debug, Clone, Copy, PartialEq, Eq)]
+    pub enum PageFaultAt {
+        /// The write is not performed at all and completes with an error.
+        Submission,
+        /// The write is performed and its completion is reported as an error.
+        Completion,
+    }
+
+    #[derive(Debug, Clone)]
+    pub struct Fault {
+        pub file: String,
+        pub tag: String,
+        /// Fail the `ordinal`-th (0-based) operation on `file` with `tag` since `enable`.
+        pub ordinal: u64,
+        /// Also fail every later operation on any file.
+        pub persistent: bool,
+        pub page_at: PageFaultAt,
+        /// Abort the process instead of failing the operation.
+        pub abort: bool,
+    }
+
+    struct State {
+        log: Vec<Event>,
+        seq: u64,
+        pending_pages: HashMap<(RawFd, u64), Vec<usize>>,
+        counts: HashMap<(String, &'static str), u64>,
+        fault: Option<Fault>,
+        fired: u64,
+    }
+
+    static ENABLED: AtomicBool = AtomicBool::new(false);
+    static STATE: Mutex<Option<State>> = Mutex::new(None);
+    thread_local! { static CUR: Cell<usize> = Cell::new(usize::MAX); }
+
+    fn name_of_fd(fd: RawFd) -> String {
+        std::fs::read_link(format!("/proc/self/fd/{fd}"))
+            .ok()
+            .and_then(|p| p.file_name().map(|s| s.to_string_lossy().into_owned()))
+            .unwrap_or_else(|| format!("fd{fd}"))
+    }
+
+    fn injected_error() -> std::io::Error {
+        std::io::Error::from_raw_os_error(libc::EIO)
+    }
+
+    pub fn enable() {
+        let mut g = STATE.lock().unwrap();
+        *g = Some(State {
+            log: Vec::new(),
+            seq: 1,
+            pending_pages: HashMap::new(),
+            counts: HashMap::new(),
+            fault: None,
+            fired: 0,
+        });
+        ENABLED.store(true, Ordering::SeqCst);
+    }
+
+    /// Switch recording off and return everything recorded since `enable`, together with the
+    /// number of failures injected.
+    pub fn disable() -> (Vec<Event>, u64) {
+        ENABLED.store(false, Ordering::SeqCst);
+        let mut g = STATE.lock().unwrap();
+        match g.take() {
+            Some(s) => (s.log, s.fired),
+            None => (Vec::new(), 0),
+        }
+    }
+
+    pub fn is_enabled() -> bool {
+        ENABLED.load(Ordering::SeqCst)
+    }
+
+    /// Arm a fault. Must be called after `enable`.
+    pub fn arm(fault: Fault) {
+        if let Some(s) = STATE.lock().unwrap().as_mut() {
+            s.fault = Some(fault);
+        }
+    }
+
+    /// Number of events recorded so far.
+    pub fn len() -> usize {
+        STATE.lock().unwrap().as_ref().map_or(0, |s| s.log.len())
+    }
+
+    // Records the event. Returns (index, whether to fail it).
+    fn push(s: &mut State, file: String, kind: Kind) -> (usize, bool) {
+        let tag = kind.tag();
+        let mut fail = false;
+        if tag != "mark" {
+            let c = s.counts.entry((file.clone(), tag)).or_insert(0);
+            let ordinal = *c;
+            *c += 1;
+            if let Some(f) = &s.fault {
+                let hit = f.file == file && f.tag == tag && f.ordinal == ordinal;
+                if hit || (f.persistent && s.fired > 0) {
+                    if f.abort {
+                        std::process::abort();
+                    }
+                    fail = true;
+                    s.fired += 1;
+                }
+            }
+        }
+        let seq = s.seq;
+        s.seq += 1;
+        s.log.push(Event {
+            seq,
+            done: None,
+            file,
+            kind,
+            thread: std::thread::current().name().unwrap_or("?").to_string(),
+            injected: fail,
+        });
+        (s.log.len() - 1, fail)
+    }
+
+    fn before(file: String, kind: Kind) -> std::io::Result<()> {
+        let mut g = STATE.lock().unwrap();
+        let Some(s) = g.as_mut() else { return Ok(()) };
+        let (id, fail) = push(s, file, kind);
+        if fail {
+            CUR.with(|c| c.set(usize::MAX));
+            return Err(injected_error());
+        }
+        CUR.with(|c| c.set(id));
+        Ok(())
+    }
+
+    /// To be called right before a mutating syscall on `fd`.
+    pub fn before_fd(fd: RawFd, kind: Kind) -> std::io::Result<()> {
+        if !is_enabled() {
+            return Ok(());
+        }
+        before(name_of_fd(fd), kind)
+    }
+
+    /// To be called right before a mutating syscall on `path`.
+    pub fn before_path(path: &std::path::Path, kind: Kind) -> std::io::Result<()> {
+        if !is_enabled() {
+            return Ok(());
+        }
+        let name = path
+            .file_name()
+            .map(|s| s.to_string_lossy().into_owned())
+            .unwrap_or_default();
+        before(name, kind)
+    }
+
+    /// To be called right before syncing the database directory.
+    pub fn before_dir(kind: Kind) -> std::io::Result<()> {
+        if !is_enabled() {
+            return Ok(());
+        }
+        before("DIR".to_string(), kind)
+    }
+
+    /// To be called right after the syscall announced by the last `before_*` on this thread
+    /// returned successfully.
+    pub fn after() {
+        if !is_enabled() {
+            return;
+        }
+        let id = CUR.with(|c| c.replace(usize::MAX));
+        if id == usize::MAX {
+            return;
+        }
+        let mut g = STATE.lock().unwrap();
+        let Some(s) = g.as_mut() else { return };
+        let seq = s.seq;
+        s.seq += 1;
+        if let Some(e) = s.log.get_mut(id) {
+            e.done = Some(seq);
+        }
+    }
+
+    pub fn mark(label: &str) {
+        if !is_enabled() {
+            return;
+        }
+        let mut g = STATE.lock().unwrap();
+        let Some(s) = g.as_mut() else { return };
+        let (id, _) = push(s, String::new(), Kind::Mark(label.to_string()));
+        let seq = s.seq;
+        s.seq += 1;
+        s.log[id].done = Some(seq);
+    }
+
+    /// Called at the top of `IoHandle::send`. Records the submission of page writes. Returns the
+    /// command back unless a fault is injected at submission, in which case the error completion
+    /// has been delivered along `completion_sender` and the command must not be submitted.
+    pub(crate) fn on_send(
+        command: IoCommand,
+        completion_sender: &Sender<CompleteIo>,
+    ) -> Option<IoCommand> {
+        if !is_enabled() {
+            return Some(command);
+        }
+        let (fd, pn, data): (RawFd, u64, Vec<u8>) = match &command.kind {
+            IoKind::Read(..) => return Some(command),
+            IoKind::Write(fd, pn, page) => (*fd, *pn, page[..].to_vec()),
+            IoKind::WriteArc(fd, pn, page) => (*fd, *pn, page[..].to_vec()),
+            IoKind::WriteRaw(fd, pn, page) => {
+                // SAFETY: the page is alive and not concurrently written while the command is
+                // in flight (the same assumption the I/O worker makes).
+                (*fd, *pn, unsafe { page.as_mut_slice() }.to_vec())
+            }
+        };
+        let mut g = STATE.lock().unwrap();
+        let Some(s) = g.as_mut() else { return Some(command) };
+        let off = pn * crate::io::PAGE_SIZE as u64;
+        let (id, fail) = push(s, name_of_fd(fd), Kind::Write { off, data });
+        if fail {
+            let at = s.fault.as_ref().map(|f| f.page_at);
+            if at == Some(PageFaultAt::Submission) {
+                drop(g);
+                let _ = completion_sender.send(CompleteIo {
+                    command,
+                    result: Err(injected_error()),
+                });
+                return None;
+            }
+        }
+        s.pending_pages.entry((fd, pn)).or_default().push(id);
+        Some(command)
+    }
+
+    /// Called by the I/O worker right before a completion is delivered.
+    pub(crate) fn on_complete(
+        command: &IoCommand,
+        result: std::io::Result<()>,
+    ) -> std::io::Result<()> {
+        if !is_enabled() {
+            return result;
+        }
+        let (fd, pn) = match &command.kind {
+            IoKind::Read(..) => return result,
+            IoKind::Write(fd, pn, _) | IoKind::WriteArc(fd, pn, _) | IoKind::WriteRaw(fd, pn, _) => {
+                (*fd, *pn)
+            }
+        };
+        let mut g = STATE.lock().unwrap();
+        let Some(s) = g.as_mut() else { return result };
+        let id = match s.pending_pages.get_mut(&(fd, pn)) {
+            Some(q) if !q.is_empty() => q.remove(0),
+            _ => return result,
+        };
+        let seq = s.seq;
+        s.seq += 1;
+        if result.is_ok() {
+            s.log[id].done = Some(seq);
+        }
+        if s.log[id].injected {
+            return Err(injected_error());
+        }
+        result
+    }
+}
+
+pub mod knobs {
+    use std::sync::atomic::{AtomicU64, Ordering};
+
+    static ROLLBACK_SEGMENT_SIZE: AtomicU64 = AtomicU64::new(0);
+
+    /// Override the maximum size of a rollback-log segment for stores opened from now on.
+    /// 0 restores the built-in constant.
+    pub fn set_rollback_segment_size(bytes: u64) {
+        ROLLBACK_SEGMENT_SIZE.store(bytes, Ordering::SeqCst);
+    }
+
+    pub fn rollback_segment_size() -> Option<u64> {
+        match ROLLBACK_SEGMENT_SIZE.load(Ordering::SeqCst) {
+            0 => None,
+            n => Some(n),
+        }
+    }
+}
